@@ -14,7 +14,7 @@ import (
 )
 
 var profile = histeng.Profile{MaxTargets: 6, Edits: []string{"edit-content", "bump-nonce", "shift-boundary", "add-file", "rename-file", "edit-fingerprint", "reroute-alias"},
-	Perturbs: append(append([]string{"relocate", "relocate"}, histeng.AllPerturbs...), histeng.AllPerturbs...), DirOutputs: true, BinOutputs: true, MinSteps: 4, MaxSteps: 12, SubsetBuilds: true, Minimal: true, Taint: true, Groups: true}
+	Perturbs: append(append([]string{"relocate", "relocate"}, histeng.AllPerturbs...), histeng.AllPerturbs...), DirOutputs: true, BinOutputs: true, MinSteps: 4, MaxSteps: 12, SubsetBuilds: true, Minimal: true, Taint: true, Groups: true, NoCacheBuild: true, NoCacheTags: true}
 
 func run(h histeng.History) (pbt.Result, error) {
 	obs, err := histeng.RunHistory(h, os.Getenv("GROG_BIN"), histeng.Oracles{})
